@@ -460,27 +460,14 @@ def _stores(nodes) -> set[str]:
     return out
 
 
-# Calls that cannot fail in a running interpreter (no arguments, no I/O): a binding whose right-hand side is one of these
-# (or a constant / plain name) completes before anything in the try body can raise.
-NON_RAISING_CALLS = {'multiprocessing.current_process', 'threading.current_thread', 'os.getpid', 'time.time', 'time.monotonic',
-                     'datetime.datetime.now', 'uuid.uuid4'}
-
-
 def _bound_before_any_raise(ctx: Ctx, fn, t: ast.Try, name: str) -> bool:
     """The try body binds `name` in a leading run of statements none of which can raise."""
+    from ..engine import cannot_raise
     for st in t.body:
-        if not isinstance(st, (ast.Assign, ast.AnnAssign)) or getattr(st, 'value', None) is None:
+        if not cannot_raise(ctx, fn, st):
             return False
-        v = st.value
-        safe = isinstance(v, (ast.Constant, ast.Name))
-        if isinstance(v, ast.Call) and not v.args and not v.keywords:
-            d = dotted_name(v.func)
-            r = ctx.P.resolve_dotted(fn.module, d) if d else None
-            safe = r in NON_RAISING_CALLS
-        targets = st.targets if isinstance(st, ast.Assign) else [st.target]
-        if not safe or not all(isinstance(x, ast.Name) for x in targets):
-            return False
-        if any(x.id == name for x in targets):
+        targets = st.targets if isinstance(st, ast.Assign) else ([st.target] if isinstance(st, ast.AnnAssign) else [])
+        if any(isinstance(x, ast.Name) and x.id == name for x in targets):
             return True
     return False
 
